@@ -71,6 +71,41 @@ type FS struct {
 	}
 	Ops     int
 	OpCount [16]int
+	// alias: an open *os.File keeps the name it was opened with; after a rename
+	// its Write/Sync calls still arrive under the old name
+	alias []fsAlias
+}
+
+type fsAlias struct{ from, to string }
+
+// Resolve maps the name an open file reports to the name its inode has now.
+//
+//go:norace
+func (fs *FS) Resolve(name string) string {
+	for hop := 0; hop < 4; hop++ {
+		next := name
+		for i := len(fs.alias) - 1; i >= 0; i-- {
+			if fs.alias[i].from == name {
+				next = fs.alias[i].to
+				break
+			}
+		}
+		if next == name {
+			break
+		}
+		name = next
+	}
+	return name
+}
+
+//go:norace
+func (fs *FS) dropAlias(name string) {
+	for i := 0; i < len(fs.alias); i++ {
+		if fs.alias[i].from == name {
+			fs.alias = append(fs.alias[:i], fs.alias[i+1:]...)
+			i--
+		}
+	}
 }
 
 func newFS(dir string) *FS {
@@ -113,6 +148,18 @@ func (fs *FS) Rescan() {
 //
 //go:norace
 func (fs *FS) note(op int, name, name2 string, n int64) {
+	switch op {
+	case os.VerifOpWrite, os.VerifOpSync, os.VerifOpFtruncate:
+		name = fs.Resolve(name) // operation through an open file
+	case os.VerifOpOpen, os.VerifOpRemove:
+		fs.dropAlias(name) // the old name denotes a new (or no) file from now on
+	case os.VerifOpRename:
+		if name2 != "" {
+			fs.dropAlias(name)
+			fs.dropAlias(name2)
+			fs.alias = append(fs.alias, fsAlias{name, name2})
+		}
+	}
 	fs.dirty = append(fs.dirty, name)
 	if name2 != "" {
 		fs.dirty = append(fs.dirty, name2)
